@@ -7,12 +7,67 @@ RP : every edge of the complete state graph of small programs (real time constan
      jls_twr_* under the cooperative scheduler harness/sched_shim.c; thorough adds TLC simulation behaviours.
 TV : those runs plus random programs under seeded priority schedules are judged by TwrContractTrace.tla (tier A:
      exactly once / in order / bytes intact / lock discipline / content equals the synchronous reference) and
-     compared step by step with Twr.tla (TwrTrace.tla, tier B; deviation = MODEL-DRIFT, not a violation)."""
+     compared step by step with Twr.tla (TwrTrace.tla, tier B; deviation = MODEL-DRIFT, not a violation).
+RT : real threads: harness/twr_tsan_drv.c (2-4 producer threads, small queue, drop on / off) on the library built
+     with ThreadSanitizer; a reported data race is an unsynchronised access (the clause the cooperative scheduler,
+     which runs one thread at a time, cannot see: it checks which lock is held, TSan checks what is touched)."""
 import os
 import random
 
 import common as C
 import twr
+
+
+def tsan_part(ck, sc, thorough):
+    import concurrent.futures
+    import re
+    import subprocess
+    exe = os.path.join(sc, "twr_tsan_drv")
+    rc, o = C.run([os.path.join(C.HARNESS, "build_tsan.sh"), exe, "2048"], timeout=900, check=False)
+    if rc != 0:
+        raise C.ToolFailure("ThreadSanitizer build failed:\n%s" % o[-3000:])
+    runs = [(sd, 2 + sd % 3, 600 if thorough else 250, sd % 2) for sd in range(1, (60 if thorough else 10) + 1)]
+
+    def one(a):
+        sd, nt, nops, drop = a
+        out = os.path.join(sc, "tsan_%d.jls" % sd)
+        env = dict(os.environ)
+        env["TSAN_OPTIONS"] = "exitcode=66 halt_on_error=0 second_deadlock_stack=1"
+        try:
+            p = subprocess.run([exe, out, str(sd + 1000 * C.seed()), str(nt), str(nops), str(drop)], env=env, timeout=300,
+                               stdout=subprocess.PIPE, stderr=subprocess.PIPE)
+            return a, p.returncode, p.stdout.decode("utf-8", "replace"), p.stderr.decode("utf-8", "replace")
+        except subprocess.TimeoutExpired:
+            return a, -9, "", "timeout"
+        finally:
+            try:
+                os.remove(out)
+            except OSError:
+                pass
+    nacc = 0
+    seen = set()
+    with concurrent.futures.ThreadPoolExecutor(max_workers=max(2, C.NCPU // 4)) as ex:
+        for a, rc, so, se in ex.map(one, runs):
+            m = re.search(r'"accepted":(\d+)', so)
+            nacc += int(m.group(1)) if m else 0
+            if rc == 0:
+                continue
+            sums = sorted(set(re.sub(r"0x[0-9a-f]+", "ADDR", x) for x in re.findall(r"SUMMARY: ThreadSanitizer: [^\n]*", se)))
+            if rc == -9:
+                why, key = "a real-thread run did not finish within 300 s", "hang"
+            elif sums:
+                why, key = "unsynchronised access on real threads", " | ".join(sums)
+            else:
+                why, key = "a real-thread run ended abnormally (exit %d)" % rc, "exit %d" % rc
+            if key in seen:
+                continue
+            seen.add(key)
+            ef = os.path.join(sc, "tsan_seed%d.stderr.txt" % a[0])
+            open(ef, "w").write(se[-20000:])
+            ck.violation({"where": "implementation", "reason": why, "what": key[:400], "run": "seed %d, %d threads, %d calls each, drop %d" % a}, [ef])
+    ck.log("real threads under ThreadSanitizer: %d runs (2-4 producer threads, 2 KiB queue), %d messages accepted, %d distinct report(s)" % (len(runs), nacc, len(seen)))
+    ck.cov["tsan_runs"] = len(runs)
+    ck.cov["tsan_messages_accepted"] = nacc
 
 
 def run(tier):
@@ -46,4 +101,5 @@ def run(tier):
         sim = ({"sigs": sig2, "threads": [[F(1, 100), ("A", 1), F(1, 90), ("U", 1)], [F(3, 100), ("D", 33), F(3, 60)]], "closer": 0},
                0, 2500, 1500)
     twr.run_campaign(ck, "C06", sc, exe, rng, mc_progs, graph_progs, 15000 if thorough else 300, sim=sim)
+    tsan_part(ck, sc, thorough)
     return ck.finish()
